@@ -105,6 +105,7 @@ def exec (s : St) (ws : List String) : St × List String :=
     | ["peerClose"] => (c0, false, { s with peerClosed := true })
     | "script" :: _ => (c0, false, s)
     | ["advance", us] => (step c0 (.advance (us.toNat?.getD 0)), false, s)
+    | ["ownerDestroy"] => (step c0 .ownerDestroy, false, s)
     | ["iter"] => (step c0 (.iter active), false, s)
     | _ => (c0, true, s)
   let newEvs := c1.trace.drop tlen
